@@ -26,24 +26,100 @@ pub fn check_dir(r: &mut Recorder, c: &Value) {
         let li = LanguageIdentifier::from_bytes(&id);
         li.map(|li| {
             let d = li.character_direction();
+            let d_again = li.character_direction();
             let mut with_v = li.clone();
             with_v.set_variants(&[Variant::from_bytes(b"valencia").unwrap()]);
             let d2 = with_v.character_direction();
             let loc = Locale::from(li.clone());
             let d3 = loc.id.character_direction();
-            (d, d2, d3)
+            (d, d2, d3, d_again)
         })
     });
     match res {
         Err(at) => r.dis(&["C01"], &format!("panic@{}", short_at(&at)), json!({"id": show(&id), "panic": at})),
         Ok(Err(e)) => r.dis(&["C02", "C14"], "dir-id-does-not-parse", json!({"id": show(&id), "err": format!("{:?}", e)})),
-        Ok(Ok((d, d2, d3))) => {
+        Ok(Ok((d, d2, d3, d_again))) => {
+            if d_again != d {
+                r.dis(&["C14"], "direction-second-call-differs", json!({"id": show(&id), "first": dir_name(d), "second": dir_name(d_again)}));
+            }
             if !allowed(&c[key], &json!(dir_name(d))) {
                 r.dis(&["C14"], "direction", json!({"id": show(&id), "likelysubtags": key, "allowed": c[key], "observed": dir_name(d), "why": c["why"]}));
             }
             if d2 != d || d3 != d {
                 r.dis(&["C14"], "direction-depends-on-variants", json!({"id": show(&id), "plain": dir_name(d), "with_variant": dir_name(d2)}));
             }
+        }
+    }
+}
+
+/// MC_Stateless.tla: a sequence of maximize / minimize / character_direction calls about one language family, run in
+/// order on this thread.  Every call must get an answer the property allows for it on its own, whatever came before it:
+/// a memo, scratch buffer or lazily built index that leaks from one call into the next shows up here (C06, C08, C14).
+pub fn check_seq(r: &mut Recorder, c: &Value) {
+    use unic_langid_impl::subtags::{Language, Region, Script};
+    r.stat("seq");
+    let l = unbytes(&c["l"]);
+    let steps = c["steps"].as_array().cloned().unwrap_or_default();
+    let lang = match Language::from_bytes(&l) {
+        Ok(x) => x,
+        Err(_) => {
+            r.dis(&["C15"], "seq-language-rejected", json!({"l": show(&l)}));
+            return;
+        }
+    };
+    let dkey = if cfg!(feature = "likelysubtags") { "on" } else { "off" };
+    let mut trail: Vec<Value> = Vec::new();
+    for st in steps.iter() {
+        let (s, rg) = (unbytes(&st["s"]), unbytes(&st["r"]));
+        let script = if s.is_empty() { None } else { Script::from_bytes(&s).ok() };
+        let region = if rg.is_empty() { None } else { Region::from_bytes(&rg).ok() };
+        if (script.is_none() && !s.is_empty()) || (region.is_none() && !rg.is_empty()) {
+            r.dis(&["C15"], "seq-subtag-rejected", json!({"s": show(&s), "r": show(&rg)}));
+            return;
+        }
+        let op = st["op"].as_str().unwrap_or("?").to_string();
+        let name = format!("{}({}-{}-{})", op, show(&l), show(&s), show(&rg));
+        trail.push(json!(name));
+        r.stat("seq_step");
+        match op.as_str() {
+            "dir" => {
+                let res = guard(|| { let li = LanguageIdentifier::from_parts(lang, script, region, &[]); (li.character_direction(), li.character_direction()) });
+                match res {
+                    Err(at) => { r.dis(&["C01"], &format!("panic@{}", short_at(&at)), json!({"sequence": trail, "panic": at})); return; }
+                    Ok((d, d_again)) => {
+                        if d_again != d {
+                            r.dis(&["C14"], "direction-second-call-differs", json!({"sequence": trail, "first": dir_name(d), "second": dir_name(d_again)}));
+                            return;
+                        }
+                        if !allowed(&st[dkey], &json!(dir_name(d))) {
+                            r.dis(&["C14"], if trail.len() > 1 { "direction-depends-on-earlier-calls" } else { "direction" },
+                                  json!({"sequence": trail, "likelysubtags": dkey, "allowed": st[dkey], "observed": dir_name(d)}));
+                            return;
+                        }
+                    }
+                }
+            }
+            #[cfg(feature = "likelysubtags")]
+            "max" | "min" => {
+                use unic_langid_impl::likelysubtags;
+                let is_max = op == "max";
+                let res = guard(|| if is_max { likelysubtags::maximize(lang, script, region) } else { likelysubtags::minimize(lang, script, region) });
+                let tj = |t: &(Language, Option<Script>, Option<Region>)| json!([t.0.as_str(), t.1.map(|x| x.as_str().to_string()).unwrap_or_default(),
+                                                                                 t.2.map(|x| x.as_str().to_string()).unwrap_or_default()]);
+                match res {
+                    Err(at) => { r.dis(&["C01"], &format!("panic@{}", short_at(&at)), json!({"sequence": trail, "panic": at})); return; }
+                    Ok(x) => {
+                        let got = match x { Some(t) => json!([true, tj(&t)]), None => json!([false, tj(&(lang, script, region))]) };
+                        let list = if is_max { &st["max"] } else { &st["min"] };
+                        if !allowed(list, &got) {
+                            let what = format!("{}-{}", if is_max { "maximize" } else { "minimize" }, if trail.len() > 1 { "depends-on-earlier-calls" } else { "answer" });
+                            r.dis(&[if is_max { "C06" } else { "C08" }], &what, json!({"sequence": trail, "allowed": list, "observed": got}));
+                            return;
+                        }
+                    }
+                }
+            }
+            _ => {}
         }
     }
 }
